@@ -38,7 +38,7 @@ META = {
     "assumptions": ["model strings: printable ASCII, length <= 48", "software versions: '' and 'VRP V200R001C00SPC700' / 'EOS 4.29' shapes "
                     "(no shipped template branches on hw.soft)"],
     "outside": ["model strings that match no devdb sequence", "rulebook providers other than DefaultRulebookProvider"],
-    "bounds": {},
+    "bounds": {"quick": "one synthesised model string per devdb sequence (168)", "thorough": "up to 6 distinct synthesised model strings per sequence"},
 }
 
 
@@ -193,7 +193,7 @@ def z_models():
     bad = 0
     unknown = []
     _models_seen = []
-    nvar = 1 if rt.TIER == "quick" else 3
+    nvar = 1 if rt.TIER == "quick" else 6
     work = [(seq, v) for seq in seqs[lo:hi] for v in range(nvar)]
     done = set()
     for (seq, variant) in work:
